@@ -359,12 +359,36 @@ func mkReplayA(out *vhOut, dir string, pi int, init *mkState, steps []mkStep, co
 		counts["InitBuild"]++
 		checkState(-1, mkAct{Name: "InitBuild"}, *init)
 	}
+	// a second tree object: the persisted image (Marshal) of the live tree plus a freshly opened hash file
+	reloaded := func() (*CompactMerkleTree, HashStore) {
+		buf, err := ta.tree.Marshal()
+		vhMust(err)
+		st2, err := NewFileHashStore(ta.name, ta.tree.TreeSize())
+		vhMust(err)
+		t2 := NewTree(0, nil, st2)
+		vhMust(t2.UnMarshal(append([]byte{}, buf...)))
+		return t2, st2
+	}
 	for si, st := range steps {
 		a := st.Act
 		counts[a.Name]++
 		switch a.Name {
 		case "Append":
-			if p := mkCatch(func() { ta.tree.AppendHash(common.Uint256(mkLeafA(a.I))) }); p != "" {
+			// the root announced for "this leaf appended" (GetRootWithNewLeaf / GetRootWithNewLeaves are what
+			// the ledger uses to compute a block's root before committing) must be the root after the append
+			leaf := common.Uint256(mkLeafA(a.I))
+			expNext := common.Uint256(ev.eval(fmt.Sprintf("0-%d", st.To.N)))
+			if p := mkCatch(func() {
+				if r := ta.tree.GetRootWithNewLeaf(leaf); r != expNext {
+					bad(si, a.Name, "GetRootWithNewLeaf", hex.EncodeToString(r[:]), fmt.Sprintf("0-%d", st.To.N))
+				}
+				if r := ta.tree.GetRootWithNewLeaves([]common.Uint256{leaf}); r != expNext {
+					bad(si, a.Name, "GetRootWithNewLeaves", hex.EncodeToString(r[:]), fmt.Sprintf("0-%d", st.To.N))
+				}
+			}); p != "" {
+				bad(si, a.Name, "panic", p, nil)
+			}
+			if p := mkCatch(func() { ta.tree.AppendHash(leaf) }); p != "" {
 				bad(si, a.Name, "panic", p, nil)
 			}
 			checkState(si, a, st.To)
@@ -421,6 +445,13 @@ func mkReplayA(out *vhOut, dir string, pi int, init *mkState, steps []mkStep, co
 				bad(si, a.Name, "error", perr.Error(), a)
 			} else if !mkEq(proof, ev.evals(a.Proof)) {
 				bad(si, a.Name, "proof", mkHex(proof), a)
+			} else {
+				t2, st2 := reloaded()
+				p2, e2 := t2.InclusionProof(uint32(a.M), uint32(a.S))
+				if e2 != nil || !mkEq(p2, proof) || t2.Root() != ta.tree.Root() {
+					bad(si, a.Name, "proof-after-reload", mkHex(p2), a)
+				}
+				st2.Close()
 			}
 		case "GenCons":
 			var proof []common.Uint256
@@ -428,6 +459,13 @@ func mkReplayA(out *vhOut, dir string, pi int, init *mkState, steps []mkStep, co
 				bad(si, a.Name, "panic", p, a)
 			} else if !mkEq(proof, ev.evals(a.Proof)) {
 				bad(si, a.Name, "proof", mkHex(proof), a)
+			} else {
+				t2, st2 := reloaded()
+				p2 := t2.ConsistencyProof(uint32(a.M), uint32(a.S))
+				if !mkEq(p2, proof) || t2.Root() != ta.tree.Root() {
+					bad(si, a.Name, "proof-after-reload", mkHex(p2), a)
+				}
+				st2.Close()
 			}
 		case "VerifyIncl":
 			var verr error
